@@ -45,6 +45,10 @@ pub struct Logical {
     pub dup_date: Option<Vec<u8>>,
     /// write this text as the credential-scope date (and sign over it, with the key of the true date)
     pub scope_date_override: Option<String>,
+    /// add authentication-looking inputs that must NOT be the ones authenticated: X-Amz-* query parameters
+    /// next to an Authorization header, date/token headers next to the query carrier, later duplicates of
+    /// the query carrier's own parameters, an HTTP-date `Date` header next to `X-Amz-Date`
+    pub decoys: bool,
 }
 
 /// How the wire request spells the logical one.
@@ -62,6 +66,8 @@ pub struct Spelling {
     pub path_noise: bool,
     /// write '+' in a path segment literally instead of %2B
     pub literal_plus_in_path: bool,
+    /// list the signed header names in a shuffled order on the wire (the canonical form is sorted)
+    pub unsorted_signed_list: bool,
 }
 
 impl Spelling {
@@ -76,6 +82,7 @@ impl Spelling {
             auth_layout: rng.chance(1, 2),
             path_noise: rng.chance(1, 4),
             literal_plus_in_path: false,
+            unsorted_signed_list: rng.chance(1, 3),
         }
     }
 }
@@ -91,6 +98,9 @@ pub struct Signed {
     pub signed_names: Vec<String>,
     pub credential: String,
     pub identity: String,
+    /// what the key provider must be asked for: access key and session token
+    pub expect_access_key: String,
+    pub expect_token: Option<String>,
 }
 
 pub fn spell_bytes(rng: &mut Rng, decoded: &[u8], query: bool, respell: bool, literal_plus: bool) -> Vec<u8> {
@@ -260,6 +270,7 @@ pub fn random_logical(rng: &mut Rng) -> Logical {
         fold,
         dup_date: None,
         scope_date_override: None,
+        decoys: rng.chance(1, 4),
     }
 }
 
@@ -295,6 +306,14 @@ pub fn sign_and_spell(l: &Logical, rng: &mut Rng, sp: &Spelling, now: (i64, u32)
     }
     let mut signed: Vec<String> = l.signed.clone();
     let mut auth_pairs: Vec<(Vec<u8>, Vec<u8>)> = Vec::new();
+    let mut decoy_pairs: Vec<(Vec<u8>, Vec<u8>)> = Vec::new();
+    if l.decoys {
+        // a Content-Length header, signed half of the time
+        headers.push(("Content-Length".to_string(), body.len().to_string().into_bytes()));
+        if rng.chance(1, 2) {
+            signed.push("content-length".to_string());
+        }
+    }
     match l.carrier {
         Carrier::Header => {
             if l.use_date_header {
@@ -311,6 +330,22 @@ pub fn sign_and_spell(l: &Logical, rng: &mut Rng, sp: &Spelling, now: (i64, u32)
                 headers.push(("X-Amz-Security-Token".to_string(), t.as_bytes().to_vec()));
                 signed.push("x-amz-security-token".to_string());
             }
+            if l.decoys {
+                if !l.use_date_header && rng.chance(1, 2) {
+                    // an ordinary HTTP-date next to X-Amz-Date (X-Amz-Date takes precedence)
+                    let at = rng.below(headers.len() + 1);
+                    headers.insert(at, ("Date".to_string(), b"Sun, 30 Aug 2015 12:36:00 GMT".to_vec()));
+                    if rng.chance(1, 2) {
+                        signed.push("date".to_string());
+                    }
+                }
+                // query parameters that look like the other carrier's (never X-Amz-Algorithm: that is "both carriers")
+                for (k, v) in [("X-Amz-Security-Token", "DECOYTOKEN"), ("X-Amz-Credential", "DECOY/20000101/nowhere/none/aws4_request"), ("X-Amz-Date", "20000101T000000Z"), ("X-Amz-SignedHeaders", "host"), ("X-Amz-Signature", "00")] {
+                    if rng.chance(1, 2) {
+                        decoy_pairs.push((k.as_bytes().to_vec(), v.as_bytes().to_vec()));
+                    }
+                }
+            }
         }
         Carrier::Query => {
             auth_pairs.push((b"X-Amz-Algorithm".to_vec(), b"AWS4-HMAC-SHA256".to_vec()));
@@ -319,12 +354,32 @@ pub fn sign_and_spell(l: &Logical, rng: &mut Rng, sp: &Spelling, now: (i64, u32)
             if let Some(t) = &l.token {
                 auth_pairs.push((b"X-Amz-Security-Token".to_vec(), t.as_bytes().to_vec()));
             }
+            if l.decoys {
+                // headers that look like the other carrier's date/token (never Authorization), and later
+                // duplicates of this carrier's own parameters (the first occurrence counts)
+                for (k, v) in [("X-Amz-Date", "20000101T000000Z"), ("X-Amz-Security-Token", "DECOYTOKEN"), ("Date", "Sun, 30 Aug 2015 12:36:00 GMT")] {
+                    if rng.chance(1, 2) {
+                        let at = rng.below(headers.len() + 1);
+                        headers.insert(at, (k.to_string(), v.as_bytes().to_vec()));
+                    }
+                }
+                for (k, v) in [("X-Amz-Security-Token", "DECOYTOKEN"), ("X-Amz-Credential", "DECOY/20000101/nowhere/none/aws4_request"), ("X-Amz-Date", "20000101T000000Z"), ("X-Amz-Algorithm", "AWS4-HMAC-SHA1")] {
+                    // a decoy token is only a *later* duplicate if the request has a real one
+                    if rng.chance(1, 2) && (k != "X-Amz-Security-Token" || l.token.is_some()) {
+                        decoy_pairs.push((k.as_bytes().to_vec(), v.as_bytes().to_vec()));
+                    }
+                }
+            }
         }
     }
     signed.sort();
     signed.dedup();
+    let mut listed = signed.clone();
+    if sp.unsorted_signed_list {
+        rng.shuffle(&mut listed);
+    }
     if l.carrier == Carrier::Query {
-        auth_pairs.push((b"X-Amz-SignedHeaders".to_vec(), signed.join(";").into_bytes()));
+        auth_pairs.push((b"X-Amz-SignedHeaders".to_vec(), listed.join(";").into_bytes()));
     }
 
     // --- reference canonical request
@@ -336,6 +391,7 @@ pub fn sign_and_spell(l: &Logical, rng: &mut Rng, sp: &Spelling, now: (i64, u32)
     }
     let mut pairs = l.query.clone();
     pairs.extend(auth_pairs.iter().cloned());
+    pairs.extend(decoy_pairs.iter().cloned());
     if folds {
         pairs.extend(l.form.clone().unwrap());
     }
@@ -392,6 +448,11 @@ pub fn sign_and_spell(l: &Logical, rng: &mut Rng, sp: &Spelling, now: (i64, u32)
     if sp.permute {
         rng.shuffle(&mut wire_pairs);
     }
+    // decoys come last on the wire, so that the genuine parameters are the first occurrences
+    wire_pairs.extend(decoy_pairs.iter().cloned());
+    if l.carrier == Carrier::Query && l.decoys {
+        wire_pairs.push((b"X-Amz-Signature".to_vec(), b"ff".to_vec()));
+    }
     let mut comps: Vec<Vec<u8>> = Vec::new();
     for (k, v) in &wire_pairs {
         let mut c = spell_bytes(rng, k, true, sp.respell, false);
@@ -422,7 +483,7 @@ pub fn sign_and_spell(l: &Logical, rng: &mut Rng, sp: &Spelling, now: (i64, u32)
     if l.carrier == Carrier::Header {
         let mut params = vec![
             format!("Credential={}", credential),
-            format!("SignedHeaders={}", signed.join(";")),
+            format!("SignedHeaders={}", listed.join(";")),
             format!("Signature={}", signature),
         ];
         let auth = if sp.auth_layout {
@@ -486,6 +547,7 @@ pub fn sign_and_spell(l: &Logical, rng: &mut Rng, sp: &Spelling, now: (i64, u32)
         vec_reqs: false,
         req_ops: vec![],
         method: l.method.clone(),
+        version: *rng.pick(&[11u8, 11, 11, 10, 2, 3, 9]),
         uri,
         headers,
         body,
@@ -494,7 +556,9 @@ pub fn sign_and_spell(l: &Logical, rng: &mut Rng, sp: &Spelling, now: (i64, u32)
         pending_answer: 0,
         answer: Answer::Key { key: key.clone(), identity: identity.clone() },
     };
-    Signed { case, creq, sts, signature, key, scope_date, signed_names: signed, credential, identity }
+    let expect_access_key = l.access_key.clone();
+    let expect_token = l.token.clone();
+    Signed { case, creq, sts, signature, key, scope_date, signed_names: signed, credential, identity, expect_access_key, expect_token }
 }
 
 /// Server time equal to the request time plus a skew in nanoseconds.
